@@ -37,6 +37,8 @@ struct Profile {
   bool buggify = true;
   bool child_output = true;
   bool hostile_output = false;
+  bool generator_restats_log = false;   // generator commands may end with `ninja -t restat` (log replaced mid-build)
+  bool invalid_dyndep = false;      // a third of the runs: producers write damaged dyndep files (outside C11's own single-world runs)
   bool subset_then_touch = false;   // history macro: rebuild a restat statement alone, touch its source, build all
   bool check_convergence = true;
   bool coarse_clock_allowed = true;
@@ -104,6 +106,7 @@ struct InvRecord {
   std::set<std::string> edited_during;   // files edited while the build ran
   std::map<std::string, std::set<int>> read_by;   // file -> statements that read it in this invocation
   bool fault_fired = false;              // any injected fault (not buggify)
+  bool log_restated = false;             // a generator command ran `ninja -t restat` (recorded mtimes = output mtimes)
   bool interrupted = false;
   int interrupt_sig = 0;
   int epochs = 0;
@@ -139,6 +142,7 @@ struct World : SpawnHandler {
   Scenario sc;
   Scenario pending;           // what a manifest regeneration will write
   bool has_pending = false;
+  bool log_restated = false;   // a generator command replaced the build log during the current invocation
   std::map<std::string, int> version;
   std::map<std::string, int> inc_version;   // which hidden includes a source pulls in (no effect on what is computed)
   std::set<std::string> emptied;            // sources whose content is currently empty
